@@ -454,13 +454,13 @@ def support_obligations(S):
             continue
         l = int(key.split(":")[-1])
         sup = support(S.scn, node)
-        bad = [v for v in sup if (v.startswith("y") or v.startswith("v")) and int(v.split("_")[1]) != l]
+        bad = [v for v in sup if ((v.startswith("y") or v.startswith("v")) and "_" in v and int(v.split("_")[1]) != l) or (v.startswith("z") and int(v.split("_")[-1]) != l)]
         yield ("C08:support[%s]" % key, bad)
 
 
 # ----------------------------------------------------------------------------------------------
 def extra_gens(S):
-    g = ["C0", "C1", "C2", "C3", "SC", "SS", "SD"]
+    g = ["C0", "C1", "C2", "C3", "SC", "SS", "SD", "QX", "QY"]
     for v in S.gens():
         if v.startswith("y"):
             g.append("Z" + v[1:])
@@ -469,7 +469,79 @@ def extra_gens(S):
     return g
 
 
+def linear_obligations(S, F):
+    """C01 / C06 / C16 / C20 for the Linear strategy on the real code's recorded DAG"""
+    n, lanes = S.n, S.lanes
+    env = S.base_env(F)
+    X = [env["x%d" % i] for i in range(n)]
+    for l in range(lanes):
+        Y = [env["y%d_%d" % (i, l)] for i in range(n)]
+        pieces = []
+        for i in range(n - 1):
+            t = S.taylor(F, env, "P:%d:%d" % (i, l), "q%d" % i, X[i])
+            pieces.append(t)
+            slope = (Y[i + 1] - Y[i]) / (X[i + 1] - X[i])
+            yield ("C01:line[piece=%d,lane=%d]" % (i, l), [t[0] - Y[i], t[1] - slope, t[2], t[3], t[4]])
+            sup = support(S.scn, S.out["P:%d:%d" % (i, l)])
+            allowed = {"x%d" % i, "x%d" % (i + 1), "y%d_%d" % (i, l), "y%d_%d" % (i + 1, l), "q%d" % i}
+            yield ("C20:support[piece=%d,lane=%d]" % (i, l), [F.one] if (sup - allowed) else [F.zero])
+        if S.extrap:
+            if ("PL:%d" % l) in S.out:
+                t = S.taylor(F, env, "PL:%d" % l, "qL", X[0])
+                yield ("C06:extrap-left-is-end-line[lane=%d]" % l, [t[k] - pieces[0][k] for k in range(5)])
+                t = S.taylor(F, env, "PR:%d" % l, "qR", X[n - 2])
+                yield ("C06:extrap-right-is-end-line[lane=%d]" % l, [t[k] - pieces[n - 2][k] for k in range(5)])
+            else:
+                yield ("C06:never-rejects-outside[linear]", [F.one])
+        else:
+            yield ("C05:outside-rejected-without-extrapolation[linear]", [F.one] if ("PL:%d" % l) in S.out or ("PR:%d" % l) in S.out else [F.zero])
+
+
+def bilinear_obligations(S, F):
+    """C04 / C06 / C20 for Bilinear: every cell's output is the weight-form blend of its four corners"""
+    scn = S.scn
+    nx, ny, lanes = scn["nx"], scn["ny"], scn["lanes"]
+    env = {v: F.gen[v] for v in S.gens()}
+    ev = Ev(scn, F.zero, F.one, F.conv)
+
+    def val(key, qxn, qyn, qxv, qyv):
+        e = {k: Jet.const(v, F.zero) for k, v in env.items()}
+        e[qxn] = Jet.const(qxv, F.zero); e[qyn] = Jet.const(qyv, F.zero)
+        return ev.run(e, [S.out[key]])[0].c[0]
+
+    def blend(i, k, l, qx, qy):
+        x1, x2, y1, y2 = env["x%d" % i], env["x%d" % (i + 1)], env["y%d" % k], env["y%d" % (k + 1)]
+        z = lambda a, b: env["z%d_%d_%d" % (a, b, l)]
+        return (z(i, k) * (x2 - qx) * (y2 - qy) + z(i + 1, k) * (qx - x1) * (y2 - qy) + z(i, k + 1) * (x2 - qx) * (qy - y1) + z(i + 1, k + 1) * (qx - x1) * (qy - y1)) / ((x2 - x1) * (y2 - y1))
+
+    QX, QY = F.gen["QX"], F.gen["QY"]
+    for l in range(lanes):
+        for i in range(nx - 1):
+            for k in range(ny - 1):
+                key = "B:%d:%d:%d" % (i, k, l)
+                got = val(key, "qx%d_%d" % (i, k), "qy%d_%d" % (i, k), QX, QY)
+                yield ("C04:bilinear-blend[cell=%d,%d,lane=%d]" % (i, k, l), [got - blend(i, k, l, QX, QY)])
+                sup = support(scn, S.out[key])
+                allowed = {"x%d" % i, "x%d" % (i + 1), "y%d" % k, "y%d" % (k + 1), "qx%d_%d" % (i, k), "qy%d_%d" % (i, k)} | {"z%d_%d_%d" % (a, b, l) for a in (i, i + 1) for b in (k, k + 1)}
+                yield ("C20:support[cell=%d,%d,lane=%d]" % (i, k, l), [F.one] if (sup - allowed) else [F.zero])
+        if S.extrap:
+            for key, qxn, qyn, (ci, ck) in (("BX", "qxo", "qyi", (nx - 2, 0)), ("BY", "qxi", "qyo", (0, 0)), ("BXY", "qxo2", "qyo2", (0, ny - 2))):
+                kk = "%s:%d" % (key, l)
+                if kk not in S.out:
+                    yield ("C06:never-rejects-outside[bilinear,%s]" % key, [F.one])
+                    continue
+                got = val(kk, qxn, qyn, QX, QY)
+                yield ("C06:extrap-is-border-cell[%s,lane=%d]" % (key, l), [got - blend(ci, ck, l, QX, QY)])
+        else:
+            bad = [k for k in ("BX:%d" % l, "BY:%d" % l, "BXY:%d" % l) if k in S.out]
+            yield ("C05:outside-rejected-without-extrapolation[bilinear,lane=%d]" % l, [F.one] if bad else [F.zero])
+
+
 def run_family(S, fam, F):
+    if S.scn.get("strat") == "linear":
+        return linear_obligations(S, F) if fam == "shape" else iter(())
+    if S.scn.get("strat") == "bilinear":
+        return bilinear_obligations(S, F) if fam == "shape" else iter(())
     if fam == "shape":
         return spline_obligations(S, F)
     if fam == "repro":
@@ -492,6 +564,7 @@ def decide_scenario(scn, families, mode, seed, points=3):
     def pit_field(jitter):
         F = Field(names, "pit")
         pt = rational_point(names, shadows, rng, jitter)
+        pt["QX"] = Fraction(rng.randint(-50, 50), 7); pt["QY"] = Fraction(rng.randint(-50, 50), 11)
         pt["SC"] = Fraction(rng.randint(2, 9), rng.randint(1, 5)); pt["SS"] = Fraction(rng.randint(-9, 9), 4); pt["SD"] = Fraction(rng.randint(-9, 9) or 3, 7)
         F.point(pt)
         return F, pt
